@@ -25,8 +25,43 @@ def sh(cmd, cwd=None, env=None, timeout=1800):
     return p.returncode, p.stdout + p.stderr
 
 
+def static_only(name):
+    """re-run only step 4 (all static checks against the tree with the recorded patch applied) and update meta.json"""
+    out = VERIF / 'seeded' / name
+    meta = json.loads((out / 'meta.json').read_text())
+    scratch = f'/tmp/vs-{name}'
+    sh(f'git -C /repo worktree remove --force {scratch}')
+    rc, o = sh(f'git -C /repo worktree add -q --detach {scratch} HEAD')
+    if rc:
+        print(o)
+        return 2
+    try:
+        rc, o = sh(f'git apply {out / "patch.diff"}', cwd=scratch)
+        if rc:
+            print('patch does not apply:', o)
+            return 2
+        env = dict(os.environ, PBV_REPO=scratch, PBV_EVIDENCE_DIR=f'/tmp/pbv-ev-{name}')
+        rc, o = sh('bin/vcheck all', cwd=str(VERIF), env=env, timeout=900)
+        viol = [l.strip()[len('violated:'):].strip()[:300] for l in o.splitlines() if l.strip().startswith('violated:')]
+        detected = sorted({l.split('property=')[1].split()[0] for l in o.splitlines() if l.startswith('VIOLATION')})
+        meta['checks_reporting_violation_first_run'] = meta.get('checks_reporting_violation_first_run', meta.get('checks_reporting_violation'))
+        meta['checks_reporting_violation'] = detected
+        meta['analysis_errors'] = [l for l in o.splitlines() if l.startswith('ANALYSIS-ERROR')]
+        meta['violations'] = viol[:8]
+        meta['detected'] = bool(detected)
+        meta['static_rerun_at'] = time.strftime('%Y-%m-%dT%H:%M:%SZ', time.gmtime())
+        shutil.rmtree(f'/tmp/pbv-ev-{name}', ignore_errors=True)
+    finally:
+        sh(f'git -C /repo worktree remove --force {scratch}')
+    (out / 'meta.json').write_text(json.dumps(meta, indent=1))
+    print(name, 'detected by', detected, meta['analysis_errors'])
+    return 0
+
+
 def main():
     args = sys.argv[1:]
+    if args and args[0] == '--static-only':
+        return max([static_only(n) for n in args[1:]] or [0])
     needs = ''
     if '--needs' in args:
         i = args.index('--needs')
